@@ -99,7 +99,7 @@ LHS_X, LHS_Y, LHS_XY = [0, 1], [0, 2], [1, [1, 2]]
 
 def mk(way, d, lhs, expr, pos, mode, lists, kind):
     return {
-        "in": [way, d, lhs, expr, pos, mode, [[enc_val(v) for v in l] for l in lists], ENC_ROWS],
+        "in": [way, d, lhs, expr, pos, mode, [[enc_val(v) for v in l] for l in lists], 0],  # 0 = the standard table
         "kind": kind,
     }
 
@@ -430,7 +430,7 @@ def _engine_exec(engine, lhs, expr, vals, pos, mode, cached):
 
 def impl(c):
     way, d, lhs, expr, pos, mode, lists, rows = c["in"]
-    if rows != ENC_ROWS:
+    if rows != 0:
         raise ValueError("unexpected row set")
     lists = [[dec_val(v) for v in l] for l in lists]
     dialect = _S["dialects"][d]
